@@ -53,11 +53,11 @@ ASSUMPTIONS = [
     'subprocess.run(timeout=)',
 ]
 MIN_EVENTS = {
-    'quick': {'oracle_evals': 20000, 'history_ops': 3000, 'fresh_store_views': 10000, 'roundtrips': 4000,
-              'crash_points_line': 300, 'crash_points_write': 2000, 'crash_points_fs': 150,
-              'crash_fired': 2500, 'crash_points_update': 800, 'crash_points_delete': 300,
-              'crash_points_delete_all': 300, 'crash_states_inspected': 2500,
-              'strace_runs': 3, 'strace_renames_onto_final': 3},
+    'quick': {'oracle_evals': 150000, 'history_ops': 5000, 'fresh_store_views': 15000, 'roundtrips': 4032,
+              'crash_points_line': 280, 'crash_points_write': 220, 'crash_points_fs': 130,
+              'crash_fired': 650, 'crash_points_update': 450, 'crash_points_delete': 100,
+              'crash_points_delete_all': 90, 'crash_states_inspected': 650, 'recovery_updates': 650,
+              'strace_runs': 5, 'strace_renames_onto_final': 4},
     'thorough': {'oracle_evals': 300000, 'history_ops': 50000, 'fresh_store_views': 150000, 'roundtrips': 4000,
                  'crash_points_line': 3000, 'crash_points_write': 30000, 'crash_points_fs': 1500,
                  'crash_fired': 30000, 'crash_points_update': 10000, 'crash_points_delete': 4000,
@@ -963,11 +963,15 @@ async def inspect_state(path, bc, model, r, keyprefix, ctx):
         if not ok:
             return False
     # recovery: the next operation after the crash
+    probe_kind = m.kind(bc['ns_arg'])
     try:
         await JsonKeyStore(bc['ns_arg'], path).update(PROBE_PEER, make_keys(PROBE_FIELDS))
     except Exception as e:
         r.ev('oracle_evals')
-        r.bad(f'{keyprefix}/next-update-raised/{bc["op"]}/{type(e).__name__}', f'{e!r}; {ctx()}')
+        if keyprefix.startswith('exact'):
+            r.bad(f'exact/raised/update/{probe_kind}/{type(e).__name__}', f'next update raised {e!r}; {ctx()}')
+        else:
+            r.bad(f'crash/next-update-raised/{bc["op"]}/{type(e).__name__}', f'{e!r}; {ctx()}')
         return False
     m.update(bc['ns_arg'], PROBE_PEER, PROBE_FIELDS)
     status, raw = read_raw(path)
@@ -976,8 +980,12 @@ async def inspect_state(path, bc, model, r, keyprefix, ctx):
     r.ev('oracle_evals')
     r.ev('recovery_updates')
     if status != 'ok' or raw != m.db:
-        r.bad(f'{keyprefix}/next-update-wrong/{bc["op"]}', f'file after next update: {status} '
-              f'{show_db(raw) if status == "ok" else raw}; {ctx()}')
+        detail = (f'file after the next update ({probe_kind} store): {status} '
+                  f'{show_db(raw) if status == "ok" else raw}; {ctx()}')
+        if keyprefix.startswith('exact'):
+            r.bad(f'exact/raw-file-{status if status != "ok" else "mismatch"}/update/{probe_kind}', detail)
+        else:
+            r.bad(f'crash/next-update-wrong/{bc["op"]}', detail)
         return False
     return True
 
@@ -1256,12 +1264,13 @@ def plan(tier, seed):
             if c['stale_tmp']:
                 continue
             if c['init'] in ('one', 'multi-default'):
-                modes = ['line', 'fs'] + (['write'] if c['store'] == 'named' else [])
+                modes = ['line', 'fs'] + (['write'] if c['store'] == 'named' and c['init'] == 'one' else [])
                 crash.append(({**c, 'size': 'tiny'}, modes))
             elif (c['init'], c['store'], c['op']) in (('nodir', 'named', 'update-new'), ('nofile', 'named', 'update-new'),
                                                       ('emptyobj', 'named', 'update-new'),
                                                       ('nofile', 'default', 'delete_all')):
-                crash.append(({**c, 'size': 'tiny'}, list(MODES)))
+                crash.append(({**c, 'size': 'tiny'}, ['line', 'fs', 'write'] if c['op'] == 'update-new'
+                              else ['line', 'fs']))
         for c in cfgs:
             if c['stale_tmp'] and c['init'] == 'one' and c['store'] == 'named' and c['op'] in ('update-merge', 'delete'):
                 crash.append(({**c, 'size': 'tiny'}, list(MODES)))
@@ -1277,6 +1286,7 @@ def plan(tier, seed):
                     crash.append(({**c, 'size': 'small', 'seed': seed * 7 + k}, list(MODES)))
                 if k % 6 == 0:
                     crash.append(({**c, 'size': 'big', 'seed': seed * 11 + k}, ['line', 'write', 'fs']))
+    crash.sort(key=lambda cm: -sum(60 if 'write' in m else 25 for m in cm[1]))
     for c, modes in crash:
         cases.append({'kind': 'crash', 'cfg': c, 'modes': modes})
     st = [c for c in cfgs if not c['stale_tmp'] and
